@@ -710,6 +710,45 @@ fn check_c02_graph_partial() {
     } } }
 }
 
+// C02 "every operation is an involution" for D-sets built through the public mutator: random histories of PartialDSet::set (consistent
+// and conflicting calls mixed); a call may panic (that is the library's argument check), but after every ACCEPTED call the table must be a
+// partial involution on 1..=size.  And is_complete of a PartialDSym with some branching numbers left unassigned against its definition.
+// Stated bound: 600 histories of up to 10 calls on sets of size <= 4, dimension <= 2; 300 symbols with a random subset of degrees assigned.
+fn check_c02_mutators() {
+    let mut rng = Rng(4711);
+    for _ in 0..600 {
+        let (size, dim) = (1 + rng.below(4), 1 + rng.below(2));
+        let mut ds = PartialDSet::new(size, dim);
+        let mut hist: Vec<String> = vec![];
+        for _ in 0..(1 + rng.below(10)) {
+            let (i, d, e) = (rng.below(dim + 1), 1 + rng.below(size), 1 + rng.below(size));
+            hist.push(format!("set({},{},{})", i, d, e));
+            let mut copy = ds.clone();
+            match quiet(move || { copy.set(i, d, e); copy }) {
+                Err(_) => { hist.pop(); hist.push(format!("set({},{},{}) [rejected]", i, d, e)); }       // rejected: the set is unchanged
+                Ok(c) => {
+                    ds = c;
+                    for k in 0..=dim { for x in 1..=size { if let Some(y) = ds.op(k, x) {
+                        if y < 1 || y > size || ds.op(k, y) != Some(x) { falsified("PartialDSet::set", format!("PartialDSet::new({}, {}) then {:?}", size, dim, hist), format!("accepted, but op({},{}) = {} and op({},{}) = {:?}: not an involution", k, x, y, k, y, ds.op(k, y))); }
+                    } } }
+                }
+            }
+        }
+    }
+    for _ in 0..300 {
+        let (size, dim) = (1 + rng.below(4), 1 + rng.below(3));
+        let full = match quiet(|| random_dsym(&mut Rng(rng.next()), size, dim)) { Ok(Some(f)) => f, _ => continue };
+        let mut sym: PartialDSym = as_dset(&full).into();
+        let mut assigned_all = true;
+        let mut txt = format!("PartialDSym::from(the D-set of {}) with", full);
+        for i in 0..dim { for d in 1..=size { if sym.v(i, i + 1, d) == Some(0) { if rng.below(3) > 0 { sym.set_v(i, d, 1); txt += &format!(" set_v({},{},1)", i, d); } } } }
+        for i in 0..dim { for d in 1..=size { if sym.v(i, i + 1, d) == Some(0) { assigned_all = false; } } }
+        let defined = (0..=dim).all(|i| (1..=size).all(|d| sym.op(i, d).is_some()));
+        let exp = defined && assigned_all;
+        if quiet(|| sym.is_complete()).ok() != Some(exp) { falsified("PartialDSym::is_complete", txt, format!("expected {} (operations all defined: {}, every branching number assigned: {})", exp, defined, assigned_all)); }
+    }
+}
+
 // C04, first two sentences: is_minimal / minimal_image against the coarsest degree-respecting congruence computed by partition
 // refinement.  Stated bound: connected complete corpus symbols of size <= 5 (fixed seed) and their oriented covers.
 fn coarsest_congruence<T: DSym>(ds: &T) -> usize {
@@ -823,6 +862,54 @@ fn check_c18_exact() {
                   Ok(None) => if exact_det(&data) == 1 || exact_det(&data) == -1 { falsified("VecMatrix::solve", format!("A={:?} b={:?}", data, bs), "None for a unimodular (hence solvable over the integers) system".into()); },
                   Err(e) => falsified("VecMatrix::solve", format!("A={:?} b={:?}", data, bs), format!("panic {}", e)) }
     } }
+}
+
+// every SHAPE (1..4 rows x 1..4 columns) over the prime field Z/61: rank against own elimination mod p, solve is sound AND complete
+// (a consistent system, b = A x0, must get a solution; every returned x satisfies A x = b), the null-space matrix has exactly
+// columns - rank independent columns annihilated by the matrix.  Stated bound: 40 pseudo-random matrices per shape, entries 0..60 with
+// many zeros and repeated rows (fixed seed).
+fn check_c18_shapes() {
+    const P: i64 = 61;
+    type F = PrimeResidueClass<P>;
+    let mut rng = Rng(606);
+    let rank_mod = |m: &Vec<Vec<i64>>| -> usize {
+        let mut a = m.clone(); let rows = a.len(); let cols = if rows == 0 { 0 } else { a[0].len() }; let mut rank = 0;
+        for c in 0..cols { if rank >= rows { break; }
+            if let Some(p) = (rank..rows).find(|&r| a[r][c] % P != 0) { a.swap(p, rank);
+                let mut inv = 1; for t in 1..P { if (a[rank][c] * t) % P == 1 { inv = t; break; } }
+                for r in (rank + 1)..rows { let f = (a[r][c] * inv) % P; for k in 0..cols { a[r][k] = ((a[r][k] - f * a[rank][k]) % P + P) % P; } }
+                rank += 1; } }
+        rank };
+    for rows in 1..=4usize { for cols in 1..=4usize { for _ in 0..40 {
+        let mut data: Vec<Vec<i64>> = (0..rows).map(|_| (0..cols).map(|_| if rng.below(3) == 0 { 0 } else { rng.below(P as usize) as i64 }).collect()).collect();
+        if rows > 1 && rng.below(3) == 0 { let (a, b) = (rng.below(rows), rng.below(rows)); data[a] = data[b].clone(); }      // rank defects
+        if rng.below(4) == 0 { for r in data.iter_mut() { r[0] = 0; } }                                                     // zero leading column
+        let x0: Vec<i64> = (0..cols).map(|_| rng.below(P as usize) as i64).collect();
+        let bs: Vec<i64> = (0..rows).map(|i| (0..cols).map(|j| data[i][j] * x0[j]).sum::<i64>() % P).collect();
+        let txt = format!("over Z/61: A={:?} b={:?}", data, bs);
+        let mk = || { let mut m = VecMatrix::<F>::new(rows, cols); for i in 0..rows { for j in 0..cols { m[(i, j)] = F::from(data[i][j]); } } m };
+        let exp_rank = rank_mod(&data);
+        match quiet(|| mk().rank()) { Ok(r) => if r != exp_rank { falsified("VecMatrix::rank", txt.clone(), format!("{} but the rank over Z/61 is {}", r, exp_rank)); }, Err(e) => falsified("VecMatrix::rank", txt.clone(), format!("panic {}", e)) }
+        let sol = quiet(|| { let a = mk(); let mut b = VecMatrix::<F>::new(rows, 1); for i in 0..rows { b[(i, 0)] = F::from(bs[i]); } a.solve(&b).map(|x| (0..cols).map(|j| { let v: i64 = x[(j, 0)].into(); v }).collect::<Vec<i64>>()) });
+        match sol {
+            Ok(Some(x)) => { for i in 0..rows { let s: i64 = (0..cols).map(|j| data[i][j] * x[j]).sum::<i64>() % P; if s != bs[i] { falsified("VecMatrix::solve", txt.clone(), format!("returned {:?} which is not a solution (row {})", x, i)); break; } } }
+            Ok(None) => falsified("VecMatrix::solve", txt.clone(), format!("None, but the system is consistent over the field (x = {:?} solves it)", x0)),
+            Err(e) => falsified("VecMatrix::solve", txt.clone(), format!("panic {}", e)),
+        }
+        match quiet(|| { let n = mk().null_space_matrix(); let (nr, nc) = (rust_dsymbols::geometry::traits::Array2d::nr_rows(&n), rust_dsymbols::geometry::traits::Array2d::nr_columns(&n)); (0..nr).map(|i| (0..nc).map(|j| { let v: i64 = n[(i, j)].into(); v }).collect::<Vec<i64>>()).collect::<Vec<Vec<i64>>>() }) {
+            Err(e) => falsified("VecMatrix::null_space_matrix", txt.clone(), format!("panic {}", e)),
+            Ok(n) => {
+                let nc = if n.is_empty() { 0 } else { n[0].len() };
+                if cols - exp_rank > 0 {
+                    if n.len() != cols || nc != cols - exp_rank { falsified("VecMatrix::null_space_matrix", txt.clone(), format!("{} x {} matrix, expected {} x {}", n.len(), nc, cols, cols - exp_rank)); }
+                    else {
+                        for i in 0..rows { for k in 0..nc { let s: i64 = (0..cols).map(|j| data[i][j] * n[j][k]).sum::<i64>() % P; if s != 0 { falsified("VecMatrix::null_space_matrix", txt.clone(), format!("column {} is not annihilated (row {})", k, i)); } } }
+                        if rank_mod(&n) != nc { falsified("VecMatrix::null_space_matrix", txt.clone(), "the columns are not independent".into()); }
+                    }
+                }
+            }
+        }
+    } } }
 }
 
 // random subgroups of the Coxeter groups S4 = [3,3] and S5 = [3,3,3]; the index is computed independently from the faithful
@@ -1267,8 +1354,8 @@ fn main() {
     std::panic::set_hook(Box::new(|_| {}));
     start_watchdog();
     match prop.as_str() {
-        "C01" => check_c01(), "C02" => { check_c02(); check_c02_graph(); check_c02_graph_partial(); check_c02_plain_r(); }, "C04" => { check_c04(); check_c04_minimal(); }, "C05" => { check_c05(); check_c05_covers(); check_c05_universal(); check_c05_count(); if thorough() { check_c05_sweep(); } },
-        "C10" => check_c10(), "C11" => { check_c11(); check_c11_random(); check_c11_exhaustive(); check_c11_small_groups(); }, "C18" => { check_c18(); check_c18_exact(); check_c18_modular(); }, "C20" => { check_c20(); check_c20_unions(); }, "C13" => { check_c13(); check_c13_large(); },
+        "C01" => check_c01(), "C02" => { check_c02(); check_c02_graph(); check_c02_graph_partial(); check_c02_plain_r(); check_c02_mutators(); }, "C04" => { check_c04(); check_c04_minimal(); }, "C05" => { check_c05(); check_c05_covers(); check_c05_universal(); check_c05_count(); if thorough() { check_c05_sweep(); } },
+        "C10" => check_c10(), "C11" => { check_c11(); check_c11_random(); check_c11_exhaustive(); check_c11_small_groups(); }, "C18" => { check_c18(); check_c18_exact(); check_c18_shapes(); check_c18_modular(); }, "C20" => { check_c20(); check_c20_unions(); }, "C13" => { check_c13(); check_c13_large(); },
         _ => { eprintln!("unknown property"); std::process::exit(2); }
     }
     unsafe { println!("falsifier finished: {} discrepancies", COUNT); }
